@@ -344,3 +344,52 @@ def coq_message(case) -> str:
     qs = coq_list([f"(mkQ {coq_labels(n)} {t}%N {c}%N)" for n, t, c in case["q"]], "query")
     secs = " ".join(coq_list([coq_rr(r) for r in case[k]], "rr") for k in ("an", "ns", "ar"))
     return f"(mkM {hd} {qs} {secs})"
+
+
+# ---- reference (uncompressed) encoder, used to seed the C33 mutation streams --------------------
+
+def ref_name(labels) -> bytes:
+    return b"".join(bytes([len(l) // 2 & 0xFF]) + bytes.fromhex(l) for l in labels) + b"\0"
+
+
+def ref_rdata(t, data) -> bytes:
+    if t == 38:
+        plen, suffix, prefix = data[0]["a6"]
+        nb = (128 - plen) // 8 if plen <= 128 else 0
+        return bytes([plen & 0xFF]) + (bytes.fromhex(suffix)[16 - nb:] if nb else b"") + (ref_name(prefix) if plen else b"")
+    out = b""
+    for f, v in zip(RFC_SCHEMA.get(t, "r").split(), data):
+        if f == "n":
+            out += ref_name(v["n"])
+        elif f[0] == "b" or f == "r":
+            out += bytes.fromhex(v["b"])
+        elif f[0] == "u":
+            out += (v["u"] % 256 ** int(f[1:])).to_bytes(int(f[1:]), "big")
+        elif f[0] == "s":
+            out += (v["s"] % 2 ** 32).to_bytes(4, "big")
+        elif f == "c":
+            b = bytes.fromhex(v["b"])[:255]
+            out += bytes([len(b)]) + b
+        elif f == "L":
+            b = bytes.fromhex(v["b"])
+            out += len(b).to_bytes(2, "big") + b
+        elif f == "t":
+            for x in v["l"]:
+                b = bytes.fromhex(x)[:255]
+                out += bytes([len(b)]) + b
+    return out
+
+
+def ref_encode(case) -> bytes:
+    h = case["hdr"]
+    b3 = (h["answer"] & 1) << 7 | (h["opCode"] & 15) << 3 | (h["auth"] & 1) << 2 | (h["trunc"] & 1) << 1 | h["recDes"] & 1
+    b4 = (h["recAv"] & 1) << 7 | (h["authenticData"] & 1) << 5 | (h["checkingDisabled"] & 1) << 4 | h["rCode"] & 15
+    out = struct.pack("!H2B4H", h["id"] & 0xFFFF, b3, b4, len(case["q"]), len(case["an"]), len(case["ns"]), len(case["ar"]))
+    for n, t, c in case["q"]:
+        out += ref_name(n) + struct.pack("!HH", t & 0xFFFF, c & 0xFFFF)
+    for s in ("an", "ns", "ar"):
+        for r in case[s]:
+            rd = ref_rdata(r["t"], r["d"])
+            out += ref_name(r["n"]) + struct.pack("!HHIH", r["t"] & 0xFFFF, r["c"] & 0xFFFF, r["ttl"] & 0xFFFFFFFF,
+                                                  len(rd) & 0xFFFF) + rd
+    return out
